@@ -291,7 +291,8 @@ class SimplifySymbolNames:
                     yield Simplification({symbol: Node('|' + s + '|')}, [])
         else:
             for s in self.__simpler(symbol):
-                if not is_var(Node(s)):
+                # a numeral (or another constant) is not a symbol name
+                if not is_var(Node(s)) and not is_const(Node(s)):
                     yield Simplification({symbol: Node(s)}, [])
 
     def __simpler(self, symbol):
